@@ -66,6 +66,15 @@ def call(eng, node, st):
 
 
 def do_contract_call(eng, cc, args, st, node):
+    names = list(cc.params)
+    if len(args) < len(names) and cc.extra.get("defaults"):
+        # trailing parameters left out at the call: their default values as declared in the contract (checked against the source when the callee is verified:
+        # see Engine.verify) -- Python evaluates defaults once, at definition time; only constants are accepted
+        args = list(args)
+        for n in names[len(args):]:
+            if n not in cc.extra["defaults"]:
+                break
+            args.append(cc.extra["defaults"][n])
     if getattr(eng, "concrete", False) and not eng.spec_mode:
         return concrete_call(eng, cc, args, st, node)
     if cc.inline and not eng.spec_mode:
